@@ -171,12 +171,15 @@ def Out.isEffect : Out → Bool
   | .handshakeOk => false
   | .auth _ _ => true
   | .effect _ _ => true
-  | .reply _ _ d => d
+  /- a reply that carries data, or any non-error reply (the handshake's own `ok` reply follows
+  its `handshakeOk`, so it is preceded by a successful handshake too) -/
+  | .reply _ e d => d || e == .ok || e == .handler
 
-/-- needs the correct key first (when one is configured) -/
+/-- needs the correct key first (when one is configured): command effects, data, and the
+non-error reply of any command other than handshake/auth -/
 def Out.isGuarded : Out → Bool
   | .effect _ _ => true
-  | .reply _ _ d => d
+  | .reply _ e d => d || e == .handler
   | _ => false
 
 def Out.isHandshakeOk : Out → Bool
@@ -199,5 +202,101 @@ def rejects (key : String) (s : St) (h : Hdr) : Option Err :=
   if h.cmd != "handshake" && s.version == 0 then some .handshakeRequired
   else if key != "" && !s.didAuth && h.cmd != "auth" && h.cmd != "handshake" then some .authRequired
   else none
+
+/-! ### Code-shape variants
+
+The decisive shapes of `handleHandshake` / `handleAuth` are regenerated from the source
+(`Gen/IpcGate.lean`).  `Shape` names the two variation points a plausible edit changes; the
+model above is the `good` shape (`onBodyV good = onBody`), the other shapes exist so that the
+property can be shown to FAIL for them (regression witnesses). -/
+
+structure Shape where
+  /-- `client.version = req.Version` executed before the range check (and the duplicate check
+  first): a rejected handshake with a non-zero unsupported version leaves `version != 0` -/
+  hsAssignBeforeRangeCheck : Bool := false
+  /-- the presented key is compared only over its own length (a non-empty proper prefix matches) -/
+  authPrefixMatch : Bool := false
+  deriving DecidableEq, Repr, Inhabited
+
+def good : Shape := {}
+
+def keyMatches (sh : Shape) (given want : String) : Bool :=
+  if sh.authPrefixMatch then
+    given.length != 0 && given.length ≤ want.length && given.toList == want.toList.take given.length
+  else given == want
+
+def onBodyV {Obj : Type} (sh : Shape) (cd : Codec Obj) (key : String) (s : St) (o : Obj) : St × List Out :=
+  let s' := { s with mode := .header }
+  if s.hdr.cmd == "handshake" then
+    match cd.version o with
+    | none => ({ s with closed := true }, [])
+    | some v =>
+      if sh.hsAssignBeforeRangeCheck then
+        if s.version != 0 then (s', [.reply s.hdr.seq .duplicateHandshake false])
+        else if v < minIPCVersion || v > maxIPCVersion then ({ s' with version := v }, [.reply s.hdr.seq .unsupportedVersion false])
+        else ({ s' with version := v }, [.handshakeOk, .reply s.hdr.seq .ok false])
+      else if v < minIPCVersion || v > maxIPCVersion then (s', [.reply s.hdr.seq .unsupportedVersion false])
+      else if s.version != 0 then (s', [.reply s.hdr.seq .duplicateHandshake false])
+      else ({ s' with version := v }, [.handshakeOk, .reply s.hdr.seq .ok false])
+  else if s.hdr.cmd == "auth" then
+    match cd.authKey o with
+    | none => ({ s with closed := true }, [])
+    | some k =>
+      if keyMatches sh k key then ({ s' with didAuth := true }, [.auth k true, .reply s.hdr.seq .ok false])
+      else (s', [.auth k false, .reply s.hdr.seq .invalidToken false])
+  else
+    match cd.body s.hdr.cmd o with
+    | none => ({ s with closed := true }, [])
+    | some a => (s', [.effect s.hdr.cmd a, .reply s.hdr.seq .handler (returnsData s.hdr.cmd)])
+
+def stepV {Obj : Type} (sh : Shape) (cd : Codec Obj) (key : String) (s : St) (o : Obj) : St × List Out :=
+  if s.closed then (s, [])
+  else
+    match s.mode with
+    | .header =>
+      match cd.hdr s.hdr o with
+      | none => ({ s with closed := true }, [])
+      | some h => onHeader key s h
+    | .body => onBodyV sh cd key s o
+
+def runFromV {Obj : Type} (sh : Shape) (cd : Codec Obj) (key : String) : St → List Obj → St × List Out
+  | s, [] => (s, [])
+  | s, o :: rest =>
+    let r := stepV sh cd key s o
+    let r' := runFromV sh cd key r.1 rest
+    (r'.1, r.2 ++ r'.2)
+
+def runV {Obj : Type} (sh : Shape) (cd : Codec Obj) (key : String) (objs : List Obj) : List Out :=
+  (runFromV sh cd key {} objs).2
+
+/-- canonical text of the extracted shapes for the `good` model -/
+def canonicalHandshakeChain : List (String × String) :=
+  [("req.Version < MinIPCVersion || req.Version > MaxIPCVersion", "error:unsupportedIPCVersion"),
+   ("client.version != 0", "error:duplicateHandshake"),
+   ("else", "assign:client.version=req.Version")]
+
+def canonicalAuthChain : List (String × String) :=
+  [("req.AuthKey == i.authKey", "assign:client.didAuth=true"), ("else", "error:invalidAuthToken")]
+
+def canonicalHandshakeGate : String × String × Bool :=
+  ("command != handshakeCommand && client.version == 0", "Handshake required", true)
+
+def canonicalAuthGate : String × String × Bool :=
+  ("i.authKey != \"\" && !client.didAuth && command != authCommand && command != handshakeCommand", "Authentication required", false)
+
+/-- the shape the extracted chains denote -/
+def shapeOf (hsChain authChain : List (String × String)) : Shape :=
+  { hsAssignBeforeRangeCheck := hsChain != canonicalHandshakeChain, authPrefixMatch := authChain != canonicalAuthChain }
+
+/-- the dispatch table of the source agrees with `cmdInfo` (every command other than
+handshake/auth) and handshake/auth decode a body and send none -/
+def dispatchAgrees (rows : List (String × String × Bool × Bool)) : Bool :=
+  rows.all (fun r =>
+    if r.1 == "handshake" || r.1 == "auth" then r.2.2.1 && !r.2.2.2
+    else cmdInfo r.1 == some (r.2.2.1, r.2.2.2)) &&
+  ["event", "force-leave", "join", "members", "members-filtered", "stream", "monitor", "stop", "leave", "install-key",
+   "use-key", "remove-key", "list-keys", "tags", "query", "respond", "stats", "get-coordinate", "handshake", "auth"].all
+    (fun c => rows.any (·.1 == c)) &&
+  rows.length == 20
 
 end SerfModel.IpcGate
